@@ -213,6 +213,9 @@ pub fn embedding(name: &str) -> Embedding {
         "E7" => Embedding { name: "E7", a: 0.0, b: f64::from_bits(1) },
         "E8" => Embedding { name: "E8", a: 0.0, b: p2(496) },
         "E9" => Embedding { name: "E9", a: p2(497), b: p2(447) },
+        // full 53-bit mantissas (2^26 + v * 2^-26): conditioning 2^52, used for the exact
+        // contracts (C16) and the sign / range conditions (C17) only
+        "E10" => Embedding { name: "E10", a: p2(26), b: p2(-26) },
         _ => panic!("unknown embedding {name}"),
     }
 }
